@@ -46,6 +46,9 @@ pub struct Mat {
     pub expected: Obj,
     /// bytes a clean deserialization consumes
     pub consumed: usize,
+    /// does a clean deserialization restore the expected object? (If not, that is C14's finding; the
+    /// equality of completely delivered objects is then not judged here, truncations still are.)
+    pub clean_ok: bool,
 }
 
 /// Rebuild world and object from the expanded scenario. Err = degenerate (not a violation).
@@ -72,17 +75,18 @@ pub fn materialise(scn: &Scn) -> Result<Mat, String> {
         };
         // clean reference deserialization (C14's business if it fails; here it only gates the object)
         let mut rd = FaultyReader::new(&enc, Script::clean());
+        let mut clean_ok = true;
         let consumed = match util::catch_res(|| Obj::de(&tag, &world.ctx, &mut rd)) {
             Ok(Ok(o)) => {
                 if o.same(&expected).is_err() {
-                    return Err("clean round trip differs (C14 territory)".into());
+                    clean_ok = false;
                 }
                 rd.pos
             }
             Ok(Err(e)) => return Err(format!("clean deserialization failed: {}", e)),
             Err(e) => return Err(format!("clean deserialization panicked: {}", e)),
         };
-        Ok(Mat { world, obj, tag, enc, expected, consumed })
+        Ok(Mat { world, obj, tag, enc, expected, consumed, clean_ok })
     })
 }
 
@@ -153,7 +157,10 @@ pub fn exec_case(m: &Mat, side: Side, script: &Script) -> Outcome {
             let mut rd = FaultyReader::new(&m.enc, script.clone());
             let res = catch(|| Obj::de(&m.tag, ctx, &mut rd));
             let fired = rd.fired.clone();
-            let incomplete = script.eof_at.map(|k| k < m.consumed).unwrap_or(false) || script.fail_at.map(|k| k < m.consumed).unwrap_or(false);
+            // "a stream that ends early at any byte offset of a valid encoding": every offset below the
+            // encoding's length counts, also one the deserializer never got to because it consumed
+            // fewer bytes than were written; a read error only counts where it can fire
+            let incomplete = script.eof_at.map(|k| k < m.enc.len()).unwrap_or(false) || script.fail_at.map(|k| k < m.consumed).unwrap_or(false);
             match res {
                 Caught::Panic(msg) => Outcome { bad: Some(("panic".into(), format!("deserialize panicked: {}", msg))), fired, result_kind: "panic" },
                 Caught::Aborted => Outcome { bad: None, fired, result_kind: "aborted" },
@@ -174,7 +181,7 @@ pub fn exec_case(m: &Mat, side: Side, script: &Script) -> Outcome {
                             result_kind: "ok-bad",
                         }
                     } else {
-                        match o.same(&m.expected) {
+                        match if m.clean_ok { o.same(&m.expected) } else { Ok(()) } {
                             Ok(()) => Outcome { bad: None, fired, result_kind: "ok-complete" },
                             Err(d) => Outcome {
                                 bad: Some(("wrong-object".into(), format!("fragmented but complete stream restored a different object: {}", d))),
@@ -393,7 +400,16 @@ fn one_run(i: usize, run_seed: u64, b: &Budget) -> RunOut {
     let mut mat = None;
     let mut scn_used = None;
     for attempt in 0..12 {
-        let Some(spec) = gen::draw_spec(&mut prng, &opts) else { continue };
+        let Some(mut spec) = gen::draw_spec(&mut prng, &opts) else { continue };
+        // plain polynomials are packed by the byte width of the plain modulus: put the widths' edge
+        // cases (t = 2^8, 2^16, 2^8 + 1, 2^16 + 1 ...) in front of the polynomial serializer on purpose
+        if kind == "poly" && spec.scheme != gen::CKKS && attempt < 6 && prng.coin() {
+            let total_bits: usize = spec.q.iter().map(|&x| 64 - x.leading_zeros() as usize).sum();
+            let t = *prng.pick(&[256u64, 65536, 255, 257, 65535, 65537, 1 << 24]);
+            if (64 - t.leading_zeros() as usize) + 2 < total_bits && spec.q.iter().all(|&p| t % p != 0 && p != t) {
+                spec.t = t;
+            }
+        }
         let scn = Scn { spec, ent: prng::mix(run_seed, 1, attempt), kind: kind.clone(), obj_seed: prng::mix(run_seed, 2, attempt) };
         match materialise(&scn) {
             Ok(m) => {
@@ -460,10 +476,16 @@ fn one_run(i: usize, run_seed: u64, b: &Budget) -> RunOut {
     if big {
         out.count("probe.large_ring_object", 1);
     }
+    if kind == "poly" && scn.spec.t >= 256 && scn.spec.t.is_power_of_two() && scn.spec.t.trailing_zeros() % 8 == 0 {
+        out.count("probe.polynomial_with_plain_modulus_256_pow_k", 1);
+        if matches!(&m.obj, Obj::Poly(_, id) if *id == heathcliff::PARMS_ID_ZERO) {
+            out.count("probe.plain_polynomial_with_plain_modulus_256_pow_k", 1);
+        }
+    }
     let cap = if big { 260 } else { b.offset_cap };
     let nscripts = if big { 6 } else { b.scripts };
     // reader side: every EOF offset and every hard-error offset
-    for k in offsets(m.consumed, cap, &mut frng) {
+    for k in offsets(m.enc.len().max(m.consumed), cap, &mut frng) {
         let mut s = if frng.coin() { Script::clean() } else { Script::draw_with_transient(&mut frng, false) };
         s.eof_at = Some(k);
         judge(Side::De, s, &mut out, &mut log);
